@@ -182,14 +182,34 @@ func buildBatchWorld(root string, days int) *batchWorld {
 	rows := func(s string) string { // drop the header line
 		return s[strings.Index(s, "\n")+1:]
 	}
+	// plots of p1 that fail with a run error of their own: 3 = field id missing in the rotation file, 4 = soil texture that
+	// is in no parameter table, 5 = tillage between sowing and harvest
+	f5 := mk("p1", "5", "F5", "001", "loam12", "SM", "")
+	bad := mk("p1", "4", "F1", "004", "loam12", "SM", "")
+	bad.Soil.Hor = []proj.Horizon{{Tex: "XX9", Lower: 5, BD: 3, Corg: 1, CN: 10}}
+	d := func(off int) string { return proj.DateStr("DateDElong", proj.D(isoAdd(start, off))) }
 	a.Files = map[string]string{
-		"poly_p1.txt": polyHdr + "1 001 F1    99 99 0 x\n2 002 F2    99 99 0 x\nend\n",
-		"soil_p1.csv": a.SoilCSV() + rows(b.SoilCSV()),
-		"crop_p1.txt": a.RotationTxt() + rows(b.RotationTxt()),
-		"fert_p1.txt": fmt.Sprintf("Field_ID  N   Frt date\n%-9s 40 KAS  %s\n%-9s 40 KAS  %s\nend\n", "F1", proj.DateStr("DateDElong", proj.D(isoAdd(start, 1))), "F2", proj.DateStr("DateDElong", proj.D(isoAdd(start, 1)))),
+		"poly_p1.txt": polyHdr + "1 001 F1    99 99 0 x\n2 002 F2    99 99 0 x\n3 001 FX    99 99 0 x\n4 004 F1    99 99 0 x\n5 001 F5    99 99 0 x\nend\n",
+		"soil_p1.csv": a.SoilCSV() + rows(b.SoilCSV()) + rows(bad.SoilCSV()),
+		"crop_p1.txt": a.RotationTxt() + rows(b.RotationTxt()) + rows(f5.RotationTxt()),
+		"fert_p1.txt": fmt.Sprintf("Field_ID  N   Frt date\n%-9s 40 KAS  %s\n%-9s 40 KAS  %s\nend\n", "F1", d(1), "F2", d(1)),
+		"til_p1.txt":  fmt.Sprintf("Field_ID  Ti Typ date\n          cm\n%-9s 20 1   %s\nend\n", "F5", d(2)),
 	}
 	a.Write(root)
 	c.Write(root)
+	// p3: pedotransfer function with texture fractions that do not add up to 100 %
+	p3 := mk("p3", "1", "F1", "001", "loam12", "SM", "")
+	p3.Soil.Hor = []proj.Horizon{{Tex: "SL3", Lower: 6, BD: 3, Corg: 1, CN: 10, PS: 45, Sand: 50, Silt: 20, Clay: 10}}
+	p3.Config["PTF"] = "1"
+	p3.Write(root)
+	// a weather file with a gap inside the simulated period (selected with fcode=WG)
+	if wtxt, err := os.ReadFile(filepath.Join(root, "weather", "w", "W.csv")); err == nil {
+		ls := strings.Split(string(wtxt), "\n")
+		if len(ls) > 8 {
+			ls = append(ls[:7], ls[8:]...)
+		}
+		os.WriteFile(filepath.Join(root, "weather", "w", "WG.csv"), []byte(strings.Join(ls, "\n")), 0o644)
+	}
 	// private parameter folder with the two custom crops
 	par := filepath.Join(root, "par")
 	os.MkdirAll(par, 0o755)
@@ -210,7 +230,11 @@ func buildBatchWorld(root string, days int) *batchWorld {
 		// lines that fail with an error of their own
 		"Fsoil":  "project=p1 plotNr=1 fcode=W parameter=par poligonID=F soilId=999",
 		"Fyear":  "project=p2 plotNr=1 fcode=W parameter=par poligonID=G StartYear=1990",
-		"Fplot":  "project=p1 plotNr=7 fcode=W parameter=par poligonID=H",
+		"Ffield": "project=p1 plotNr=3 fcode=W parameter=par poligonID=H",
+		"Ftex":   "project=p1 plotNr=4 fcode=W parameter=par poligonID=I",
+		"Ftill":  "project=p1 plotNr=5 fcode=W parameter=par poligonID=J",
+		"Fptf":   "project=p3 plotNr=1 fcode=W parameter=par poligonID=K",
+		"Fgap":   "project=p2 plotNr=1 fcode=WG parameter=par poligonID=L",
 		"Fargs":  "plotNr=1 fcode=W",
 	}}
 	return w
